@@ -35,6 +35,10 @@ type c17Scenario struct {
 	cancel   bool // context cancellation as a move
 	sunset   bool // jump past the read-only date as a move
 	bound    int
+	// direct: the rounds are driven by calling sequence() directly (no ticker), so
+	// that a round can deterministically start with an already-cancelled context
+	// (under RunSequencer that is a coin toss of its select statement).
+	direct int
 }
 
 const c17Period = 1 * time.Second
@@ -69,6 +73,12 @@ type c17Exec struct {
 	cancelled, jumped bool
 	t0      time.Time
 	evictions int
+	// reqCtx is the submitters' request context: independent of the server's.
+	reqCtx    context.Context
+	reqCancel context.CancelFunc
+	genAtJump int
+	// commitGens records the pool generation at each lock commit.
+	commitGens []int
 }
 
 func (x *c17Exec) observeRotation() {
@@ -89,8 +99,23 @@ func (x *c17Exec) everyStep() {
 	// A waiter admitted at generation g waits for the pool rotated out at g+1,
 	// whose round ends before rotation g+2: still blocked then = stranded.
 	x.mu.Lock()
+	if x.sc.direct > 0 {
+		// sequence() has returned (the driver is parked after it): every waiter of a
+		// pool that was rotated out must have its outcome.
+		after := false
+		for _, l := range x.s.ParkedLabels() {
+			if l == "run: after round" {
+				after = true
+			}
+		}
+		for _, wt := range x.waits {
+			if after && !wt.done && wt.gen < x.gen {
+				x.w.violate("C17", "submitter %s (%s) is still waiting although the round that took its pool has returned", wt.sub, wt.spec)
+			}
+		}
+	}
 	for _, wt := range x.waits {
-		if !wt.done && x.gen >= wt.gen+2 {
+		if x.sc.direct == 0 && !wt.done && x.gen >= wt.gen+2 {
 			x.w.violate("C17", "submitter %s (%s) is still waiting although its pool was sequenced and the next one rotated", wt.sub, wt.spec)
 		}
 	}
@@ -104,15 +129,37 @@ func (x *c17Exec) moves() []verifmc.Move {
 		x.ticks++
 		time.Sleep(c17Period)
 	}
-	if x.ticks < x.sc.ticks {
+	x.mu.Lock()
+	stopped := x.stopped
+	x.mu.Unlock()
+	// RunSequencer's select between the ticker and ctx.Done() is a coin toss when
+	// both are ready: to keep executions deterministic, cancellation is offered
+	// only while no tick is pending (every tick so far has started its round) and
+	// no tick is delivered between the cancellation and the stop.
+	tickPending := x.ticks > x.gen
+	if x.ticks < x.sc.ticks && !(x.cancelled && !stopped) {
 		ms = append(ms, verifmc.Move{Label: "tick", Cost: 0, IdleOnly: true, Do: tick})
 		ms = append(ms, verifmc.Move{Label: "tick", Cost: 1, Do: tick})
 	}
-	if x.sc.cancel && !x.cancelled && !x.stopped {
+	if x.sc.cancel && !x.cancelled && !stopped && (!tickPending || x.sc.direct > 0) {
 		ms = append(ms, verifmc.Move{Label: "cancel", Cost: 1, Do: func() { x.cancelled = true; x.in.cancel() }})
 	}
-	if x.sc.sunset && !x.jumped && !x.stopped {
-		ms = append(ms, verifmc.Move{Label: "jump past the read-only date", Cost: 1, Do: func() { x.jumped = true; time.Sleep(9 * 24 * time.Hour) }})
+	if x.sc.sunset && !x.jumped && !stopped {
+		ms = append(ms, verifmc.Move{Label: "jump past the read-only date", Cost: 1, Do: func() {
+			x.jumped = true
+			x.genAtJump = x.gen
+			if tickPending {
+				// a tick was delivered before the jump: its round may already have
+				// passed the read-only check (it happens before the first scheduling
+				// point of the round), so one more generation is legitimate
+				x.genAtJump++
+			}
+			// The read-only date is reached by moving the shard end into the past
+			// rather than by sleeping: a nine-day sleep would also expire every
+			// timeout of a round in progress (and so hide what a round started
+			// after the date does).
+			x.in.cfg.NotAfterLimit = time.Now().Add(-8 * 24 * time.Hour)
+		}})
 	}
 	return ms
 }
@@ -142,7 +189,7 @@ func (x *c17Exec) submitter(name string, prog []c17Sub) {
 				dupPending = true
 			}
 		}
-		f, src := l.addLeafToPool(x.in.ctx, e, op.low)
+		f, src := l.addLeafToPool(x.reqCtx, e, op.low)
 		x.s.Observe("src=" + src)
 		wt := &c17Wait{sub: name, spec: op.spec, low: op.low, src: src, pool: cur, gen: x.gen}
 		// Reference admission decision.
@@ -202,7 +249,7 @@ func (x *c17Exec) submitter(name string, prog []c17Sub) {
 		x.pools[cur] = append(x.pools[cur], wt)
 		x.mu.Unlock()
 		x.s.AtomicSync(false)
-		le, err := f(x.in.ctx)
+		le, err := f(x.reqCtx)
 		x.mu.Lock()
 		wt.done, wt.err = true, err
 		wt.at = time.Since(x.t0)
@@ -221,6 +268,16 @@ func (x *c17Exec) submitter(name string, prog []c17Sub) {
 	}
 }
 
+func c17RunSequencer(x *c17Exec, l *Log, in *instance, s *verifmc.Sched) func() {
+	return func() {
+		err := l.RunSequencer(in.ctx, c17Period)
+		x.mu.Lock()
+		x.stopped, x.stopErr = true, err
+		x.mu.Unlock()
+		s.Observe(fmt.Sprintf("stopped %v", err != nil))
+	}
+}
+
 func prio(low bool) string {
 	if low {
 		return "low-priority"
@@ -236,6 +293,16 @@ func runC17(t *testing.T, sc *c17Scenario, prefix []int) *verifmc.ExecResult {
 		base := getBase(0)
 		w := newWorld(s, base, options{faults: sc.faults})
 		x := &c17Exec{sc: sc, w: w, s: s, pools: map[*pool][]*c17Wait{}, t0: time.Now()}
+		x.reqCtx, x.reqCancel = context.WithCancel(context.Background())
+		prevLock := w.lock.OnEffect
+		w.lock.OnEffect = func(ev verifmc.Event) {
+			prevLock(ev)
+			if ev.Applied && (ev.Op == "replace" || ev.Op == "create") {
+				x.mu.Lock()
+				x.commitGens = append(x.commitGens, x.gen)
+				x.mu.Unlock()
+			}
+		}
 		verifmc.Cur = s
 		defer func() {
 			verifmc.Cur = nil
@@ -266,13 +333,24 @@ func runC17(t *testing.T, sc *c17Scenario, prefix []int) *verifmc.ExecResult {
 		// Only lock operations fail (the fatal stop); storage faults are C01-C04's subject.
 		in.bh.NoFaults = true
 		s.Moves = x.moves
-		s.GoPrio("run", 5, func() {
+		if sc.direct > 0 {
+			s.GoPrio("run", 5, func() {
+				for r := 0; r < sc.direct; r++ {
+					s.Point("round")
+					l.sequence(in.ctx)
+					s.Point("after round")
+				}
+			})
+		} else {
+			s.GoPrio("run", 5, c17RunSequencer(x, l, in, s))
+		}
+		_ = func() {
 			err := l.RunSequencer(in.ctx, c17Period)
 			x.mu.Lock()
 			x.stopped, x.stopErr = true, err
 			x.mu.Unlock()
 			s.Observe(fmt.Sprintf("stopped %v", err != nil))
-		})
+		}
 		for i, prog := range sc.subs {
 			name := fmt.Sprintf("sub%d", i)
 			s.GoPrio(name, 1, func() { x.submitter(name, prog) })
@@ -313,6 +391,7 @@ func runC17(t *testing.T, sc *c17Scenario, prefix []int) *verifmc.ExecResult {
 			s.Drain()
 		}
 		in.cancel()
+		x.reqCancel()
 		synctest.Wait()
 		if pe := s.PanicErr(); pe != nil {
 			if ee, ok := pe.(verifmc.EngineError); ok {
@@ -330,6 +409,9 @@ func runC17(t *testing.T, sc *c17Scenario, prefix []int) *verifmc.ExecResult {
 		res.Mismatch = mismatch
 		res.Violations = w.viol
 		res.Outcome = x.outcome()
+		if os.Getenv("VERIF_DEBUG") != "" && x.jumped {
+			fmt.Fprintf(os.Stderr, "DEBUG jumped genAtJump=%d commitGens=%v stopped=%v err=%v\n%s\n", x.genAtJump, x.commitGens, x.stopped, x.stopErr, strings.Join(s.Trace, "\n"))
+		}
 	})
 	if engineErr != nil {
 		panic(engineErr)
@@ -341,6 +423,13 @@ func (x *c17Exec) finalChecks() {
 	w := x.w
 	x.mu.Lock()
 	defer x.mu.Unlock()
+	if x.jumped {
+		for _, g := range x.commitGens {
+			if g > x.genAtJump {
+				w.violate("C17", "a round started after the read-only date signed a checkpoint")
+			}
+		}
+	}
 	evicted := 0
 	for _, wt := range x.waits {
 		if wt.done && wt.err == errEvicted && wt.admitted {
@@ -421,6 +510,7 @@ func scenariosC17() []*c17Scenario {
 		{name: "c17/size2/two-lows-two-highs", poolSize: 2, subs: [][]c17Sub{{L("a"), L("a")}, {L("b")}, {H("c"), H("d")}}, ticks: 3, bound: bound},
 		{name: "c17/size1/fatal-stop", poolSize: 1, subs: [][]c17Sub{{H("a"), H("b")}, {L("c")}}, ticks: 3, faults: true, bound: bound},
 		{name: "c17/size2/cancel", poolSize: 2, subs: [][]c17Sub{{H("a"), H("b")}, {L("c")}}, ticks: 3, cancel: true, bound: bound},
+		{name: "c17/size2/direct-cancel", poolSize: 2, subs: [][]c17Sub{{H("a"), H("b")}, {L("c")}}, direct: 2, cancel: true, bound: bound},
 		{name: "c17/size2/sunset", poolSize: 2, subs: [][]c17Sub{{H("a"), H("b")}, {L("c")}}, ticks: 3, sunset: true, bound: bound},
 	}
 	if thorough {
